@@ -580,9 +580,9 @@ theorem walk_le_size {a : Array UInt8} {i j : Nat} (h : Walk a i j) (hi : i ≤ 
   | step op h1 h2 h3 h4 ih => exact ih h3
 
 /-- no operand of a SETUPTRY is the end-of-stream offset.  (`Props/C05.compile_wf` proves every such
-    operand is an instruction start OR the end of the stream; that it is never the end — after a try
-    statement the compiler always emits THROW 0, the catch / finally positions are those of emitted
-    SETUPCATCH / SETUPFINALLY instructions — is the open item `TryStrict` of C05, which implies this.) -/
+    operand is an instruction start OR the end of the stream; that it is never the end — the catch /
+    finally positions are those of emitted SETUPCATCH / SETUPFINALLY instructions — is
+    `Props/C05.compile_try_strict` (`TryStrict`, round 5), which implies this.) -/
 def TryNotEnd (f : CFn) : Prop :=
   ∀ p op, Bd f.insts p → f.insts[p]? = some op → op.toNat = Compile.OpSetupTry →
     readBE f.insts (p + 1) 4 ≠ f.insts.size ∧ readBE f.insts (p + 5) 4 ≠ f.insts.size
@@ -613,10 +613,10 @@ theorem wfCode_of_wfFn {cs : Array Const} {nf : Nat} {g : CFn} (h : WFFn cs nf g
     exact ⟨fun _ => ⟨w1, by show readBE g.insts (p + 1) 4 < g.insts.size; omega⟩,
       fun _ => ⟨w2, by show readBE g.insts (p + 5) 4 < g.insts.size; omega⟩⟩
 
-/-- the hypothesis on compiler output that is not yet a theorem of C05: no operand of a SETUPTRY — in
-    main or in a function constant — is the end-of-stream offset (`TryNotEnd`; implied by
-    `Props/C05.TryStrict`, `tryNotEnd_of_tryStrict`; checked on real bytecode by the structural scan
-    of the `compilefuzz` stream) -/
+/-- no operand of a SETUPTRY — in main or in a function constant — is the end-of-stream offset
+    (`TryNotEnd`; implied by `Props/C05.TryStrict`, `tryNotEnd_of_tryStrict`).  A hypothesis in round
+    4; since round 5 a theorem about compile-model output: `compiled_try_targets_strict`.  (Also
+    checked on real bytecode by the structural scan of the `compilefuzz` stream.) -/
 def TryTargetsStrict (bc : Compile.Bytecode) : Prop :=
   TryNotEnd bc.main ∧ ∀ g, Const.fn g ∈ bc.constants.toList → TryNotEnd g
 
@@ -630,11 +630,19 @@ theorem fnList_wfCode (bc : Compile.Bytecode) (hwf : WF bc) (ht : TryTargetsStri
     exact wfCode_of_wfFn hf (ht.2 g (mem_fnsOf hg))
   · subst hg; exact wfCode_of_wfFn hwf.2.1 ht.1
 
-/-- **exec_at_starts_compiled**: `ExecAtStarts` — the hypothesis of the round-3 theorems — holds for
-    the output of the total compile model (`compile_wf`: builtin table in range, assignment
-    statements have a left-hand side) loaded into a new VM and run by the VM model, given
-    `TryTargetsStrict`. -/
-theorem exec_at_starts_compiled (builtins : List (String × Nat)) (hbi : BuiltinsOK builtins) (disabled : List String)
+/-- **compiled_try_targets_strict** (round 5): `TryTargetsStrict` is a theorem about the output of the
+    total compile model — `Props/C05.compile_try_strict` (invariant `TryLt` carried through every
+    compile function: a SETUPTRY is patched only with the position at which SETUPCATCH was emitted
+    and the position of the emitted SETUPFINALLY). -/
+theorem compiled_try_targets_strict (builtins : List (String × Nat)) (hbi : BuiltinsOK builtins) (disabled : List String)
+    (file : List Ast.Stmt) (hok : Ast.okSs file = true) (bc : Compile.Bytecode)
+    (hc : compileFile builtins disabled file = .ok bc) : TryTargetsStrict bc := by
+  obtain ⟨h1, h2⟩ := compile_try_strict builtins hbi disabled file hok bc hc
+  exact ⟨tryNotEnd_of_tryStrict h1, fun g hg => tryNotEnd_of_tryStrict (h2 g hg)⟩
+
+/-- **exec_at_starts_compiled_of_TryTargetsStrict** (the round-4 statement): `ExecAtStarts` for the output
+    of the total compile model loaded into a new VM and run by the VM model, given `TryTargetsStrict`. -/
+theorem exec_at_starts_compiled_of_TryTargetsStrict (builtins : List (String × Nat)) (hbi : BuiltinsOK builtins) (disabled : List String)
     (file : List Ast.Stmt) (hok : Ast.okSs file = true) (bc : Compile.Bytecode)
     (hc : compileFile builtins disabled file = .ok bc) (ht : TryTargetsStrict bc)
     (F : FloatOps) (g : V) (args : List V) (s1 : State)
@@ -644,6 +652,18 @@ theorem exec_at_starts_compiled (builtins : List (String × Nat)) (hbi : Builtin
   have hg : Good s1 := good_prologue g args h0 hpro
   intro s hb _
   exact UgoVerif.VM.Cfi.exec_at_starts F hg s hb
+
+/-- **exec_at_starts_compiled**: `ExecAtStarts` — the hypothesis of the round-3 theorems — holds for
+    the output of the total compile model (hypotheses of `compile_wf`: builtin table in range,
+    assignment statements have a left-hand side) loaded into a new VM and run by the VM model.  No
+    compiler-side hypothesis is left: `TryTargetsStrict` is `compiled_try_targets_strict`. -/
+theorem exec_at_starts_compiled (builtins : List (String × Nat)) (hbi : BuiltinsOK builtins) (disabled : List String)
+    (file : List Ast.Stmt) (hok : Ast.okSs file = true) (bc : Compile.Bytecode)
+    (hc : compileFile builtins disabled file = .ok bc)
+    (F : FloatOps) (g : V) (args : List V) (s1 : State)
+    (hpro : exec (prologue g args) (loaded bc) = (.ok (), s1)) : ExecAtStarts F s1 :=
+  exec_at_starts_compiled_of_TryTargetsStrict builtins hbi disabled file hok bc hc
+    (compiled_try_targets_strict builtins hbi disabled file hok bc hc) F g args s1 hpro
 
 /-- a function without SETUPTRY satisfies `TryNotEnd` -/
 theorem tryNotEnd_of_noTry (f : CFn) (h : ∀ b ∈ f.insts.toList, b.toNat ≠ Compile.OpSetupTry) : TryNotEnd f := by
@@ -689,17 +709,19 @@ example : ∃ s0 : State, Good s0 := by
     (`vm.ip++` done) satisfies `UncaughtThrow` when no active frame has a handler: the code memory
     is the compiler's functions, all of them satisfy `FnCov lab`, every frame below the current one
     is suspended at a CALL / CALLNAME instruction START of its function, the dispatched offset is an
-    instruction start.  Control-flow integrity is no longer a hypothesis. -/
+    instruction start.  Control-flow integrity is no longer a hypothesis, and (round 5) neither is
+    `TryTargetsStrict`: the hypotheses are those of `Props/C05.compile_wf`, the labelling of the AST
+    and the success of the prologue. -/
 theorem compiled_run_sites (lab : Nat → Nat) (builtins : List (String × Nat)) (hbi : BuiltinsOK builtins)
     (disabled : List String) (file : List Ast.Stmt) (hok : Ast.okSs file = true) (hl : Ast.labSs lab file = true)
-    (bc : Compile.Bytecode) (hc : compileFile builtins disabled file = .ok bc) (ht : TryTargetsStrict bc)
+    (bc : Compile.Bytecode) (hc : compileFile builtins disabled file = .ok bc)
     (F : FloatOps) (g : V) (args : List V) (s1 : State)
     (hpro : exec (prologue g args) (loaded bc) = (.ok (), s1))
     (s : State) (hb : Boundary F s1 s) (he : s.err = none)
     (hnh : ∀ i, i ≤ s.curFrame → hasHandler (s.frames[i]!) = false) :
     UncaughtThrow lab (fnList bc) { s with ip := s.ip + 1 } :=
   compiled_run_sites_of_ExecAtStarts lab builtins disabled file hl bc hc F g args s1 hpro
-    (exec_at_starts_compiled builtins hbi disabled file hok bc hc ht F g args s1 hpro) s hb he hnh
+    (exec_at_starts_compiled builtins hbi disabled file hok bc hc F g args s1 hpro) s hb he hnh
 
 /-- **compiled_run_lines.**  … hence the reported lines (`C16_compiled_lines`) for an error raised by
     the instruction dispatched at that boundary (as far as `throw` is entered with the frames below,
@@ -707,7 +729,7 @@ theorem compiled_run_sites (lab : Nat → Nat) (builtins : List (String × Nat))
     primitive of the VM model keeps them: `Proofs/VMCallSiteOps.lean`, `ck_*`). -/
 theorem compiled_run_lines (lab : Nat → Nat) (builtins : List (String × Nat)) (hbi : BuiltinsOK builtins)
     (disabled : List String) (file : List Ast.Stmt) (hok : Ast.okSs file = true) (hl : Ast.labSs lab file = true)
-    (bc : Compile.Bytecode) (hc : compileFile builtins disabled file = .ok bc) (ht : TryTargetsStrict bc)
+    (bc : Compile.Bytecode) (hc : compileFile builtins disabled file = .ok bc)
     (F : FloatOps) (g : V) (args : List V) (s1 : State)
     (hpro : exec (prologue g args) (loaded bc) = (.ok (), s1))
     (s : State) (hb : Boundary F s1 s) (he : s.err = none)
@@ -719,7 +741,7 @@ theorem compiled_run_lines (lab : Nat → Nat) (builtins : List (String × Nat))
             lab (recorded (fnList bc) sd (s.frames[i]!) ((s.frames[i]!).ip - 2)).toNat)
         ++ [lab (recorded (fnList bc) sd (s.frames[s.curFrame]!) (s.ip + 1)).toNat] :=
   compiled_run_lines_of_ExecAtStarts lab builtins disabled file hl bc hc F g args s1 hpro
-    (exec_at_starts_compiled builtins hbi disabled file hok bc hc ht F g args s1 hpro) s hb he hnh
+    (exec_at_starts_compiled builtins hbi disabled file hok bc hc F g args s1 hpro) s hb he hnh
 
 end cfi
 
